@@ -7,6 +7,8 @@ ogg_int64_t g_total;     /* ov_pcm_total(vf,-1) (constant during a seek) */
 int g_hs;                /* half-rate flag reported for the handle */
 extern OggVorbis_File *g_vf_for_assume;
 unsigned long g_fetches;
+int g_mon_armed;              /* position monitor (VERIF_SEEK_MONITOR): the last peeked packet was processed and carried a granule position */
+ogg_int64_t g_peek_gp;        /* granule position of the last peeked packet */
 
 /* ---- assumed libogg page/stream interface ------------------------------- */
 int ogg_page_bos(const ogg_page *og) __CPROVER_assigns() __CPROVER_ensures(RV == 0 || RV > 0);
@@ -20,7 +22,8 @@ int ogg_stream_packetout(ogg_stream_state *os, ogg_packet *op)
   __CPROVER_ensures(RV == -1 || RV == 0 || RV == 1);
 int ogg_stream_packetpeek(ogg_stream_state *os, ogg_packet *op)
   __CPROVER_requires(FRESH(os, sizeof(*os)) && (op == NULL || FRESH(op, sizeof(*op))))
-  __CPROVER_assigns(*os) __CPROVER_assigns(op != NULL: *op)
+  __CPROVER_assigns(*os, g_mon_armed, g_peek_gp) __CPROVER_assigns(op != NULL: *op)
+  __CPROVER_ensures(g_mon_armed == 0 && (op != NULL ==> g_peek_gp == op->granulepos))
   __CPROVER_ensures(RV == -1 || RV == 0 || RV == 1)
   /* ASSUMPTION (stated in evidence): granule positions in the stream stay below 2^62 */
   __CPROVER_ensures(op != NULL ==> op->granulepos < (1LL << 62));
@@ -38,7 +41,8 @@ int vorbis_info_blocksize(vorbis_info *vi, int zo)
 int vorbis_synthesis_trackonly(vorbis_block *vb, ogg_packet *op)
   __CPROVER_requires(FRESH(vb, sizeof(*vb)) && FRESH(op, sizeof(*op))) __CPROVER_assigns(*vb) __CPROVER_ensures(1);
 int vorbis_synthesis_blockin(vorbis_dsp_state *v, vorbis_block *vb)
-  __CPROVER_requires(FRESH(v, sizeof(*v)) && FRESH(vb, sizeof(*vb))) __CPROVER_assigns(*v) __CPROVER_ensures(1);
+  __CPROVER_requires(FRESH(v, sizeof(*v)) && FRESH(vb, sizeof(*vb))) __CPROVER_assigns(*v, g_mon_armed)
+  __CPROVER_ensures(g_mon_armed == (g_peek_gp > -1 ? 1 : 0));
 int vorbis_synthesis_pcmout(vorbis_dsp_state *v, float ***pcm)
   __CPROVER_requires(FRESH(v, sizeof(*v)) && pcm == NULL) __CPROVER_assigns() __CPROVER_ensures(RV >= 0);
 int vorbis_synthesis_read(vorbis_dsp_state *v, int samples)
@@ -56,6 +60,12 @@ int vorbis_synthesis_halfrate_p(vorbis_info *vi)
   ;
 OggVorbis_File *g_vf_for_assume;
 
+/* C07/C08: after a skipped packet that carries a granule position G, the position is
+   G minus the link's initial offset (never below 0) plus the lengths of the preceding
+   links (written out for <= 3 preceding links: units with VF_MAXLINKS=4) */
+#define SEEK_PL(vf, i) ((i) < (vf)->current_link ? (vf)->pcmlengths[2 * (i) + 1] : 0)
+#define SEEK_EXPECT(vf) ((g_peek_gp - (vf)->pcmlengths[2 * (vf)->current_link] < 0 ? 0 : g_peek_gp - (vf)->pcmlengths[2 * (vf)->current_link]) + \
+                         SEEK_PL(vf, 0) + SEEK_PL(vf, 1) + SEEK_PL(vf, 2))
 #define VF_DECODE_ASSIGNS vf->offset, vf->pcm_offset, vf->ready_state, vf->current_serialno, vf->current_link, \
                           vf->bittrack, vf->samptrack, vf->oy, vf->os, vf->vd, vf->vb
 #define VF_LINK_OK(vf) ((vf)->ready_state >= OPENED && (vf)->ready_state <= INITSET && (vf)->current_link >= 0 && (vf)->current_link < (vf)->links)
@@ -108,9 +118,9 @@ ogg_int64_t ov_pcm_total(OggVorbis_File *vf, int i)
 #endif
 
 int ov_pcm_seek(OggVorbis_File *vf, ogg_int64_t pos)
-  __CPROVER_requires(INV_VF(vf) && (g_hs == 0 || g_hs == 1) && g_total >= 0 && g_total < (1LL << 61) && g_vf_for_assume == vf && g_fetches == 0)
+  __CPROVER_requires(INV_VF(vf) && (g_hs == 0 || g_hs == 1) && g_total >= 0 && g_total < (1LL << 61) && g_vf_for_assume == vf && g_fetches == 0 && g_mon_armed == 0)
   __CPROVER_requires(pos < (1LL << 62) && pos > -(1LL << 62))
-  __CPROVER_assigns(VF_DECODE_ASSIGNS, g_seek_calls, g_sync_resets, g_fetches)
+  __CPROVER_assigns(VF_DECODE_ASSIGNS, g_seek_calls, g_sync_resets, g_fetches, g_mon_armed, g_peek_gp)
   __CPROVER_ensures(RV <= 0)
   /* success: the position is at or past the (half-rate rounded) target - the
      discard loop ran to completion (its termination is the decreases clause) */
